@@ -462,6 +462,10 @@ class SummaryExtractor(nodes.NodeVisitor):
                     summary_pieces.append(set_node_attributes(nodes.Text(s), document=summary_doc))
                     char_count += len(s)
 
+            elif isinstance(child, (nodes.footnote_reference, nodes.citation_reference)):
+                # The footnote itself is not part of the summary: a reference to it would lead nowhere.
+                continue
+
             else:
                 summary_pieces.append(set_node_attributes(child.deepcopy(), document=summary_doc))
                 char_count += len(''.join(node2stan.gettext(child)))
